@@ -73,8 +73,66 @@ theorem uncommit_ok_inv (g : Graph) (st st' : St) (d : Nat) (keep loc : Bool)
   rename_i old htip
   split at h <;> try (simp at h; done)
   split at h <;> try (simp at h; done)
+  split at h <;> try (simp at h; done)
   rename_i t pm hw
   cases h
   exact ⟨old, t, pm, htip, hw, rfl⟩
+
+/-- a successful `uncommit` removed no more revisions than the branch had, and a bound branch was in step -/
+theorem uncommit_ok_guards (g : Graph) (st st' : St) (d : Nat) (keep loc : Bool)
+    (h : uncommit g st d keep loc = .ok st') :
+    d ≤ st.br.revno ∧ outOfDate (masterFor loc st) st.br.tip = false ∧ (loc = true → st.master.isSome = true) := by
+  unfold uncommit at h
+  split at h <;> try (simp at h; done)
+  rename_i h1
+  split at h <;> try (simp at h; done)
+  split at h <;> try (simp at h; done)
+  rename_i h2
+  split at h <;> try (simp at h; done)
+  rename_i h3
+  refine ⟨by omega, by simpa using h2, ?_⟩
+  intro hl
+  subst hl
+  cases hm : st.master <;> simp_all
+
+/-- what a successful `uncommit(tree=None)` has done -/
+theorem uncommitNoTree_ok_inv (g : Graph) (st st' : St) (d : Nat) (keep loc : Bool)
+    (h : uncommitNoTree g st d keep loc = .ok st') :
+    ∃ old t pm, st.br.tip = some old ∧ walk g old d [] = .ok (t, pm) ∧ d ≤ st.br.revno ∧
+      st' = { finish g st old t [] d keep loc with parents := st.parents } := by
+  unfold uncommitNoTree at h
+  split at h <;> try (simp at h; done)
+  split at h <;> try (simp at h; done)
+  rename_i old htip
+  split at h <;> try (simp at h; done)
+  split at h <;> try (simp at h; done)
+  rename_i h3
+  split at h <;> try (simp at h; done)
+  rename_i t pm hw
+  cases h
+  exact ⟨old, t, pm, htip, hw, by omega, rfl⟩
+
+theorem lefthand_head (g : Graph) : ∀ (r : Rev) (l : List Rev), lefthand g r = some l → l.head? = some r := by
+  induction g with
+  | nil => intro r l h; simp [lefthand] at h
+  | cons e g ih =>
+    obtain ⟨n, ps⟩ := e
+    intro r l h
+    unfold lefthand at h
+    by_cases hn : n = r
+    · simp only [hn, if_true] at h
+      cases ps with
+      | nil => simp at h; subst h; rfl
+      | cons p rest =>
+        simp only [Option.map_eq_some_iff] at h
+        obtain ⟨l', _, rfl⟩ := h
+        rfl
+    · simp only [hn, if_false] at h
+      exact ih r l h
+
+theorem lhTip_head (g : Graph) (t : Tip) (l : List Rev) (h : lhTip g t = some l) : t = l.head? := by
+  cases t with
+  | none => simp [lhTip] at h; subst h; rfl
+  | some x => exact (lefthand_head g x l h).symm
 
 end BreezyVerif.C16
